@@ -111,6 +111,37 @@ Theorem C07_value_objects :
      (exists r, name = String "_"%char r) \/ (name = "parent" /\ only_none = true)).
 Proof. exact (conj eq_implies_hash setattr_closed). Qed.
 
+(* Histories.  The modelled functions read only the tree as it is at the time of the call.  Any mutation that
+   replaces the children of one node (list insert/append/pop/del/slice assignment/reorder, add_referable,
+   remove_referable: n' = n with other children, same class and id_short) and leaves that node well-formed leaves
+   the whole tree well-formed, so every theorem above applies again to every node of the mutated tree; e.g.: *)
+Theorem C07_after_mutation : forall t p n n', wf_tree t -> addr t p = Some n -> wf_tree n' ->
+  t_cls n' = t_cls n -> t_key n' = t_key n ->
+  wf_tree (replace_at t p n') /\ addr (replace_at t p n') p = Some n' /\
+  forall q m, addr (replace_at t p n') q = Some m ->
+    exists ids, id_short_path (replace_at t p n') q = Some ids /\ get_ref (replace_at t p n') ids = Ok (q, m).
+Proof.
+  intros t p n n' Hwf Ha Hn' Hc Hk.
+  exact (conj (proj1 (wf_replace p t n n' Hwf Ha Hn' Hc Hk))
+        (conj (proj2 (wf_replace p t n n' Hwf Ha Hn' Hc Hk))
+              (fun q m Hq => path_from _ q m (proj1 (wf_replace p t n n' Hwf Ha Hn' Hc Hk)) Hq))).
+Qed.
+
+(* insert at position 0 of the inner list of ex_sm_a (below): the old first item is now referenced by index 1 *)
+Example C07_example_mutation :
+  let inner' := Node C_SubmodelElementList "" None ""
+                  [ Node C_Property "" None "new" []; Node C_Property "" None "" []; Node C_Property "" None "" [] ] in
+  let t' := replace_at (Node C_Submodel "urn:a" None ""
+                          [ Node C_SubmodelElementList "" (Some "l") ""
+                              [ Node C_SubmodelElementList "" None ""
+                                  [ Node C_Property "" None "" []; Node C_Property "" None "" [] ] ] ])
+                       [0; 0]%nat inner' in
+  option_map (fun r => match r with Ok (ks, _) => map snd ks | Err _ => [] end) (from_referable t' [0; 0; 1]%nat)
+    = Some ["urn:a"; "l"; "0"; "1"] /\
+  get_ref t' ["l"; "0"; "2"] = Ok ([0; 0; 2]%nat, Node C_Property "" None "" []) /\
+  get_ref t' ["l"; "0"; "3"] = Err KeyError.
+Proof. vm_compute. repeat split; reflexivity. Qed.
+
 (* Non-vacuity: two stores; the first holds a submodel with a collection, a list of lists and an operation,
    the second shadows urn:a and holds urn:b with an entity containing an annotated relationship. *)
 Definition ex_sm_a : tree :=
